@@ -221,7 +221,7 @@ class ErrorEstimator:
 
                 # Compare with rhs.
                 if M0u0:
-                    result[i] += M0u0(t, x.reshape(2, 1))
+                    result[i] += np.ravel(M0u0(t, x.reshape(2, 1)))[0]
                 if g:
                     result[i] -= g(t, x.reshape(2, 1))
 
